@@ -256,3 +256,50 @@ def run(ctx: Context) -> None:  # noqa: F811
 
     ctx.rep.rule('C09.R7', 'the configured keepalive_expiry reaches every protocol connection unchanged (store link + pass link at every constructor call)')
     plumb.plumbing(ctx, 'C09.R7', ['keepalive_expiry'])
+
+
+def pending_visible_to_idle_transition(ctx: Context, rule: str) -> None:
+    """HTTP/2: the IDLE transition (`_response_closed`) decides "no request in flight" from the open-stream table.  A request
+    is in flight from the moment the gate stores ACTIVE, but it enters the table only at stream allocation.  Every
+    suspension point (async) between the two - or, on the sync tree, the mere fact that the two are not in one critical
+    section of the state lock - is a window in which the last open stream can close and declare the connection IDLE
+    (keep-alive clock started, counted as idle, evictable) with a request pending on it."""
+    from .c05 import node_calls
+
+    rep = ctx.rep
+    for tree, N in trees(ctx):
+        h2c = N.cls("http2", "AsyncHTTP2Connection")
+        f = h2c.methods[N.t("handle_async_request")] if N.t("handle_async_request") in h2c.methods else h2c.methods.get("handle_async_request") or h2c.methods["handle_request"]
+        cfg = ctx.cfg(f)
+        gate = [n for n in cfg.nodes if n.kind == "stmt" and isinstance(n.ast, ast.Assign) and norm(n.ast.targets[0]) == "self._state" and const_name(n.ast.value) == "ACTIVE"]
+        reg = [n for n in cfg.nodes if n.kind == "stmt" and isinstance(n.ast, ast.Assign) and norm(n.ast.targets[0]) == "self._events[stream_id]"]
+        if not gate:
+            raise AnalysisError("anchor vanished: ACTIVE gate in the HTTP/2 request routine")
+        if not reg:
+            rep.ob(rule, fkey(tree, f, "pending-request-visible-to-idle-transition"), False, where(f, gate[0].ast),
+                   "the request never registers its stream in the open-stream table: it is invisible to the IDLE transition for its whole life")
+            continue
+        r1 = cfg.reachable([e.dst for e in gate[0].succ if e.kind != "exc"], follow=lambda e: e.kind != "exc", stop=lambda n: n is reg[0])
+        if tree == "async":
+            between = [n for n in cfg.nodes if n.id in r1 and n is not reg[0] and n.may_cancel()]
+            ok = not between
+            wit = [n.text() for n in between[:4]]
+        else:
+            from ..guards import enclosing_withs
+            def region(n):
+                return [id(w) for w, it in enclosing_withs(n.ast) if norm(it.context_expr) == "self._state_lock"]
+            ok = bool(region(gate[0])) and region(gate[0]) == region(reg[0])
+            wit = [] if ok else ["the ACTIVE store and the stream registration are not in one `with self._state_lock` region"]
+        rep.ob(rule, fkey(tree, f, "pending-request-visible-to-idle-transition"), ok, where(f, gate[0].ast),
+               "a request is registered in the open-stream table in the same atomic step that stores ACTIVE" if ok else
+               f"between the ACTIVE gate and `self._events[stream_id] = []` the request is invisible to the IDLE transition ({wit}): if the last open stream closes there the connection is "
+               "declared IDLE (expiry armed, evictable) with this request pending - the pool may close it under a request to a healthy server", wit)
+
+
+_core_run5 = run
+
+
+def run(ctx: Context) -> None:  # noqa: F811
+    _core_run5(ctx)
+    ctx.rep.rule("C09.R8", "HTTP/2: a request that passed the ACTIVE gate is visible to the IDLE transition (it is never counted idle / expired while a request is pending on it)")
+    pending_visible_to_idle_transition(ctx, "C09.R8")
